@@ -6,6 +6,8 @@ Tie: `cli` stream — the real entry point as a subprocess (private TMPDIR and c
 channel x format, own reports, every fault point (sitecustomize injection), `-o`; compared with the Lean
 model's (exit, stdout class, report_id class, -o file).  Search: the Python oracle in implops_cli.oracle.
 """
+import json
+
 from . import cli_common as cc
 from .common import conclude, jline, junline
 from .. import core
@@ -123,15 +125,7 @@ def run(chk):
     # the same bytes as a file and on stdin, for bytes that are not a text: a project with a Latin-1 byte in it must fare alike
     # on both channels (exit status, nothing on stdout)
     nat_reqs = [{"op": "cli_natural", "k": chk.rng.randrange(0, 64), "fmt": f} for f in ("json", "csv")]
-    for rq, ans in zip(nat_reqs, cc.run_impl_parallel(chk, [jline(r) for r in nat_reqs])):
-        r = junline(ans)
-        if "_raw" in r:
-            raise core.HarnessFault(f"cli_natural worker failed: {ans[:400]}")
-        ef, es = r["file"]["line"].split()[1], r["stdin"]["line"].split()[1]
-        if ef != es or bool(r["file"]["stdout_bytes"]) != bool(r["stdin"]["stdout_bytes"]):
-            found.append((f"the same bytes (not valid UTF-8) end with exit {ef} as a file and exit {es} on stdin "
-                          f"(stdout bytes {r['file']['stdout_bytes']} / {r['stdin']['stdout_bytes']})",
-                          {"stream": "cli-natural", "input": jline(rq), "impl": r, "finding": None, "kind": "channels"}))
+    found += natural_channels(chk, nat_reqs)
     chk.cov["evaluations"] += 2 * len(nat_reqs)
     # coverage
     nontrivial = set()
@@ -166,7 +160,28 @@ def run(chk):
     return conclude(chk, dis + dis2, lambda: found)
 
 
+def natural_channels(chk, reqs):
+    """the same bytes (not valid UTF-8) as a file and on stdin must fare alike: exit status, nothing on stdout"""
+    found = []
+    for rq, ans in zip(reqs, cc.run_impl_parallel(chk, [jline(r) for r in reqs])):
+        r = junline(ans)
+        if "_raw" in r:
+            raise core.HarnessFault(f"cli_natural worker failed: {ans[:400]}")
+        ef, es = r["file"]["line"].split()[1], r["stdin"]["line"].split()[1]
+        if ef != es or bool(r["file"]["stdout_bytes"]) != bool(r["stdin"]["stdout_bytes"]):
+            found.append((f"the same bytes (not valid UTF-8) end with exit {ef} as a file and exit {es} on stdin "
+                          f"(stdout bytes {r['file']['stdout_bytes']} / {r['stdin']['stdout_bytes']})",
+                          {"stream": "cli-natural", "input": jline(rq), "impl": r, "finding": None, "kind": "channels"}))
+    return found
+
+
 def replay(chk, payload):
+    if str(payload.get("input", "")).startswith("J "):
+        rq = json.loads(payload["input"][2:])
+        found = natural_channels(chk, [rq])
+        for f in found:
+            print(f[0])
+        return conclude(chk, [], lambda: found)
     lines = [payload["input"]] if "input" in payload else [d["input"] for d in payload.get("first_disagreements", [])]
     dis, model, real = cc.differential_cli(chk, "cli", lines, cc.canon_for(KEYS))
     found = cc.collect_violations(lines, real, KINDS)
